@@ -6,6 +6,11 @@ from fractions import Fraction
 def element_style(desc, t, key=None, **_):
   import rtc.c03 as _R
   _R.pin_readings()
+  if not _R._PINS:     # the same pins as in the run that found the witness: observed on the planned documents of the current tree
+    import logging as _l
+    _l.disable(_l.CRITICAL)
+    _R._PINS.update(_R.pin_from_cases(0, _R.plan("quick", 0)) or {"-": "-"})
+  _R.apply_pins(_R._PINS)
   import logging
   logging.disable(logging.CRITICAL)
   import rtc.c03 as R
